@@ -11,6 +11,11 @@ FLOORS = {"C10.W.record-template": 1, "C10.W.record-terminator": 2, "C10.F.addre
           "C10.F.mnemonic-alphabet": 2, "C10.F.operand-pieces-comma-free": 8}
 
 
+def writer_rules(ctx, R_template, R_terminator):
+    I = make_interp(ctx.p)
+    _writer(ctx, I, R_template, R_terminator)
+
+
 def run(ctx) -> None:
     ctx.explanation = (
         "NARROW CLAIM. Writer: Instruction.stringify interpreted on abstract fields must be "
@@ -25,43 +30,18 @@ def run(ctx) -> None:
                     "LineParser.parse_instruction", "LineParser.parse_instruction_no_operands", "LineParser.parse_nop_padding",
                     "OperandsParser._process_operand_elem")
     I = make_interp(ctx.p)
-    ins = ctx.p.find_class("Instruction")
-
-    def thunk(I):
-        o = I.construct(ins, [], {"addr": Str((Hole("ADDR", "f", True),)), "mnemonic": Str((Hole("MN", "f", True),)),
-                                  "operands": AbsList(Str((Hole("OPND", "f", None),)), "operands", {})}, None, None)
-        return I.call_func(ins.find_method("stringify"), [], {}, o, None, None)
-    for p in I.explore(thunk):
-        v = p.value if p.kind == "return" else None
-        ok = False
-        if isinstance(v, Str) and len(v.atoms) == 5:
-            a = v.atoms
-            ok = (isinstance(a[0], Hole) and a[0].tag == "ADDR" and a[1] == "::" and isinstance(a[2], Hole) and a[2].tag == "MN"
-                  and a[3] == "," and isinstance(a[4], Join) and a[4].sep == "," and a[4].src == "operands"
-                  and not a[4].flags and a[4].elem.render() == "<OPND>")
-        ctx.check(ok, "C10.W.record-template", "Instruction.stringify", (v.render() if isinstance(v, Str) else repr(v))[:120],
-                  "record = addr '::' mnemonic ',' operands joined by ',' (all operands, in order)")
-    for feed in ("two", "many"):
-        bad = []
-        seen_full = False
-        for s in consumer_scenarios(I, feed):
-            if s.path.kind != "return":
-                continue
-            for c in s.regex_calls(I):
-                st = c["kwargs"].get("string", "")
-                import re as _re
-                want = (r"<inst1\.stringify[^>]*>,\|<inst2\.stringify[^>]*>,\|" if feed == "two" else
-                        r"JOIN\('',S'<inst\.stringify[^>]*>,\|' over consumed instructions\)")
-                if feed == "many" and st == "''" and any(l.startswith("not ") and "non-empty" in l for l in s.path.cond_labels()):
-                    continue
-                if not _re.fullmatch(want, st):
-                    bad.append(st)
-                else:
-                    seen_full = True
-        if not seen_full and not bad:
-            bad.append("no path searches the joined stream")
-        ctx.check(not bad, "C10.W.record-terminator", f"CompleteConsumer.consume_instruction[{feed}]", ";".join(sorted(set(bad)))[:200],
-                  "every record is stringify() + ',|' and the stream is their in-order concatenation with nothing between")
+    _writer(ctx, I, "C10.W.record-template", "C10.W.record-terminator")
+    # W3: every scan searches the stream of its own run only
+    from ..matchflow import match_interp, match_scenarios
+    Im = match_interp(ctx.p)
+    for sc in match_scenarios(Im, file_types=("assembly",), return_modes=("bool",), search_modes=("all_finds",), only_addrs=(False,),
+                              configs=({},), repeat=2):
+        if sc.path.kind != "return":
+            continue
+        streams = [Im.expr_of(e.kwargs.get("string")) for e in sc.path.events if e.kind == "extern_call" and e.name.startswith("regex.")]
+        ok = len(streams) == 2 and _norm(streams[0]) == _norm(streams[1])
+        ctx.check(ok, "C10.W.stream-per-run", "MasterOfPuppets.perform_matching x2", f"{streams}"[:220],
+                  "a repeated operation searches the same stream as the first one (records are not accumulated across runs)")
     paths, sites, pats = instr_patterns(I)
     for pat, roles in sorted(pats.items()):
         sh = LineShape(pat)
@@ -93,3 +73,49 @@ def _raw_slot(out: str) -> bool:
     from ..normflow import M as _M
     s = s.replace(f"(OP minus {_M})", "OUTSIDE")
     return "OP" in s or "M<" in s
+
+
+def _norm(x: str) -> str:
+    import re as _re
+    return _re.sub(r"#\d+", "", x)
+
+
+def _writer(ctx, I, R_template, R_terminator):
+    import re as _re
+    ins = ctx.p.find_class("Instruction")
+
+    def thunk(I):
+        o = I.construct(ins, [], {"addr": Str((Hole("ADDR", "f", True),)), "mnemonic": Str((Hole("MN", "f", True),)),
+                                  "operands": AbsList(Str((Hole("OPND", "f", None),)), "operands", {})}, None, None)
+        return I.call_func(ins.find_method("stringify"), [], {}, o, None, None)
+    for p in I.explore(thunk):
+        v = p.value if p.kind == "return" else None
+        ok = False
+        if isinstance(v, Str) and len(v.atoms) == 5:
+            a = v.atoms
+            ok = (isinstance(a[0], Hole) and a[0].tag == "ADDR" and a[1] == "::" and isinstance(a[2], Hole) and a[2].tag == "MN"
+                  and a[3] == "," and isinstance(a[4], Join) and a[4].sep == "," and a[4].src == "operands"
+                  and not a[4].flags and a[4].elem.render() == "<OPND>")
+        ctx.check(ok, R_template, "Instruction.stringify", (v.render() if isinstance(v, Str) else repr(v))[:120],
+                  "record = addr '::' mnemonic ',' operands joined by ',' (all operands, in order)")
+    for feed in ("two", "many"):
+        bad = []
+        seen_full = False
+        for s in consumer_scenarios(I, feed):
+            if s.path.kind != "return":
+                continue
+            for c in s.regex_calls(I):
+                st = c["kwargs"].get("string", "")
+                import re as _re
+                want = (r"<inst1\.stringify[^>]*>,\|<inst2\.stringify[^>]*>,\|" if feed == "two" else
+                        r"JOIN\('',S'<inst\.stringify[^>]*>,\|' over consumed instructions\)")
+                if feed == "many" and st == "''" and any(l.startswith("not ") and "non-empty" in l for l in s.path.cond_labels()):
+                    continue
+                if not _re.fullmatch(want, st):
+                    bad.append(st)
+                else:
+                    seen_full = True
+        if not seen_full and not bad:
+            bad.append("no path searches the joined stream")
+        ctx.check(not bad, R_terminator, f"CompleteConsumer.consume_instruction[{feed}]", ";".join(sorted(set(bad)))[:200],
+                  "every record is stringify() + ',|' and the stream is their in-order concatenation with nothing between")
